@@ -1070,6 +1070,7 @@ class ArgumentParser(ParserDeprecations, ActionsContainer, ArgumentLinking, argp
                             with_meta=None,
                             skip_validation=skip_validation,
                             skip_required=True,
+                            fail_no_subcommand=False,
                         )
                 except (TypeError, KeyError, argparse.ArgumentError) as ex:
                     raise argument_error(
